@@ -456,7 +456,10 @@ func TestPropEdgeSpellings(t *testing.T) {
 		"12/* {min: 1} */", "12# c", "\"s\"// n", "true# c", "null/* n */", "{}// n", "[]# c", "{ // {additionalProperties: true ### c ###}\n}", "[ // {minItems: 0 ### c ###}\n]",
 		"{\n  \"a\": 1 // {min: 1 ### c ### }\n}", "{\n  \"a\": 1, // {min: 1 # c\n  \"b\": 2\n}", "1 // n ### c ###", "1 ### c ### // n", "1 ### a ### ### b ###", "1 // {min: 1} - n # c", "1 // {min: 1}# c",
 		"{ // n # c\n  \"a\": 1 # c\n} # c", "[\n  1, // {min: 1} # c\n  2 /* {min: 1} */ # c\n]", "1 /* n # not a comment */", "1 /* {min: 1} - n ### x ### */", "###\nblock\n###\n1", "1\n###\nblock\n###",
-		"{ ### c ###\n  \"a\" ### c ### : 1\n}", "[ 1 ### c ###, 2 ]", "1 //", "1 // ", "1 /**/", "1 // -", "1 // - n", "{} // {}", "1 // {} - n", "1 /* {}\n*/"}
+		"{ ### c ###\n  \"a\" ### c ### : 1\n}", "[ 1 ### c ###, 2 ]", "1 //", "1 // ", "1 /**/", "1 // -", "1 // - n", "{} // {}", "1 // {} - n", "1 /* {}\n*/",
+		// a second annotation on the line after a rules-only one, bare dashes, hash-only comments
+		"1 // {min: 0}\n// more", "1 // {min: 0}\n/* more */", "{\n  \"a\": 1 // {min: 0}\n// about a\n}", "{\n  \"a\": 1, // {min: 0}\n  // about a\n  \"b\": 2\n}", "[\n  1 // {min: 0}\n  /* one */\n]",
+		"1 // {min: 0} # c\n// more", "1 // {min: 0} -", "1 // {min: 0} -\n", "{}\n#####", "1 #####\n", "1 // {min: 0} - n\n#####"}
 	var n, bad int64
 	idx := 0
 	for _, tx := range texts {
